@@ -93,6 +93,16 @@ fn c03_enumerated(seed: u64) -> Vec<Value> {
         ReplyFault::Shift { slot: 2, delta: 1 },
         ReplyFault::Shift { slot: 3, delta: 1000 },
         ReplyFault::Shift { slot: 4, delta: -1 },
+        ReplyFault::AltTag { variant: 0 },
+        ReplyFault::AltTag { variant: 1 },
+        ReplyFault::AltTag { variant: 2 },
+        ReplyFault::AltTag { variant: 3 },
+        ReplyFault::AltTag { variant: 4 },
+        ReplyFault::AltTag { variant: 5 },
+        ReplyFault::AltTag { variant: 6 },
+        ReplyFault::AltTag { variant: 7 },
+        ReplyFault::AltTag { variant: 8 },
+        ReplyFault::AltTag { variant: 9 },
         ReplyFault::WrongType,
         ReplyFault::OtherKey,
         ReplyFault::Replay { pick: 0 },
